@@ -2258,13 +2258,22 @@ fn core_word_const(xs: &mut State) -> Xresult {
     } else {
         let val = xs.pop_data()?;
         let name = Xstr::from(name.as_str());
-        if let Some(pos) = xs.dict_pos(name.as_str()) {
-            match &mut xs.dict[pos].entry {
-                Entry::Constant(old) => *old = val,
-                _ => return Err(Xerr::const_context())
+        // a constant made in this context is updated in place; one that belongs to an
+        // enclosing context or an earlier source is shadowed, so that rejecting this
+        // source leaves it as it was
+        let own = match xs.dict_pos(name.as_str()) {
+            Some(pos) => match &xs.dict[pos].entry {
+                Entry::Constant(_) if pos >= xs.ctx.di_len => Some(pos),
+                Entry::Constant(_) => None,
+                _ => return Err(Xerr::const_context()),
+            },
+            None => None,
+        };
+        match own {
+            Some(pos) => xs.dict[pos].entry = Entry::Constant(val),
+            None => {
+                xs.dict_insert(name, Entry::Constant(val))?;
             }
-        } else {
-            xs.dict_insert(name, Entry::Constant(val))?;
         }
         OK
     }
